@@ -331,6 +331,74 @@ Definition per_iter_count (input_counts : list N) (ssize : N) : res N :=
   do q <- checked_div (counter_total 0 input_counts) ssize;
   Ok (q mod 2 ^ 64).
 
+Fixpoint forallb2 {A B} (f : A -> B -> bool) (l1 : list A) (l2 : list B) : bool :=
+  match l1, l2 with
+  | [], [] => true
+  | a :: r1, b :: r2 => f a b && forallb2 f r1 r2
+  | _, _ => false
+  end.
+
+(** * How the counts of one counter kind get stored
+    ([CounterCollection::{set_counter,set_input_counter,clear_input_counts,push_counter}],
+    [src/counter/collection.rs:54-75,77-103,121-128]; the recording loop
+    [src/benchmark/mod.rs:819-837] (tuning round: samples and input counts are
+    cleared) and [:855-892] (one time sample and, for a per-input kind, one
+    count pushed per raw sample)). *)
+
+(** [Bencher::counter] / the counter given by the options: overwrite the first
+    entry or push one. *)
+Definition set_counter (c : N) (ci : counter_in) : counter_in :=
+  match ci_counts ci with
+  | _ :: r => {| ci_counts := c :: r; ci_input := ci_input ci |}
+  | [] => {| ci_counts := [c]; ci_input := ci_input ci |}
+  end.
+
+(** [Bencher::input_counter]: "ignore previously-set counts". *)
+Definition set_input_counter (ci : counter_in) : counter_in :=
+  {| ci_counts := []; ci_input := true |}.
+
+Definition clear_input_counts (ci : counter_in) : counter_in :=
+  if ci_input ci then {| ci_counts := []; ci_input := true |} else ci.
+
+(** State of the loop as far as this kind is concerned: how many time samples
+    are stored, and the counter info.  One raw sample = the counts of its inputs. *)
+Definition push_sample (ssize : N) (st : nat * counter_in) (input_counts : list N) : res (nat * counter_in) :=
+  if ci_input (snd st) then
+    do v <- per_iter_count input_counts ssize;
+    Ok (S (fst st), {| ci_counts := ci_counts (snd st) ++ [v]; ci_input := true |})
+  else Ok (S (fst st), snd st).
+
+Fixpoint push_samples (ssize : N) (st : nat * counter_in) (raw : list (list N)) : res (nat * counter_in) :=
+  match raw with
+  | [] => Ok st
+  | x :: r => do st' <- push_sample ssize st x; push_samples ssize st' r
+  end.
+
+(** One iteration of the [while] loop: [(tune, sample_size, raw samples of the threads)]. *)
+Definition record_round (st : nat * counter_in) (round : bool * N * list (list N)) : res (nat * counter_in) :=
+  let '(tune, ssize, raw) := round in
+  push_samples ssize (if tune then (0%nat, clear_input_counts (snd st)) else st) raw.
+
+Fixpoint record_rounds (st : nat * counter_in) (rounds : list (bool * N * list (list N))) : res (nat * counter_in) :=
+  match rounds with
+  | [] => Ok st
+  | r :: rest => do st' <- record_round st r; record_rounds st' rest
+  end.
+
+(** The samples that are still stored after these rounds (a tuning round
+    discards everything recorded before it), each with its sample size. *)
+Fixpoint kept_samples (kept : list (N * list N)) (rounds : list (bool * N * list (list N))) : list (N * list N) :=
+  match rounds with
+  | [] => kept
+  | (tune, ssize, raw) :: rest =>
+      kept_samples ((if tune then [] else kept) ++ map (fun x => (ssize, x)) raw) rest
+  end.
+
+(** Specification of what a run leaves behind for a per-input kind: one count
+    per recorded sample, each the sum over that sample's inputs / sample size. *)
+Definition stored_counts_sb (ssize : N) (sample_sums : list N) (ci : counter_in) : bool :=
+  ci_input ci && forallb2 (fun sum v => v =? (sum / ssize) mod 2 ^ 64) sample_sums (ci_counts ci).
+
 (** * Admissible sorted views *)
 
 Fixpoint sorted_by_snd (l : list (N * N)) : bool :=
@@ -405,13 +473,6 @@ Definition figures_of_index (inp : inputs) (i : N) : list N :=
 Definition column_of (sel : stats_set xq -> xq) (st : stats) : list xq :=
   sel (st_max_count st) :: sel (st_max_size st) ::
   flat_map (fun p => [sel (fst p); sel (snd p)]) (st_tallies st).
-
-Fixpoint forallb2 {A B} (f : A -> B -> bool) (l1 : list A) (l2 : list B) : bool :=
-  match l1, l2 with
-  | [], [] => true
-  | a :: r1, b :: r2 => f a b && forallb2 f r1 r2
-  | _, _ => false
-  end.
 
 (** The counter figure of column [sel] of every reported kind is the count of
     the sample [s]. *)
